@@ -468,6 +468,23 @@ def special_cases():
 
     out.append(("Binary/R/direction=-inf", _special_case(
         "Binary", bin_l, lambda P: [], lambda P, x: (z3.If(x <= P["start"].v, 1, 0), 0, 1), "Binary/R/direction=-inf")))
+
+    # vertical edges of the smooth shapes (start == end): the documented cases still decide every x - 0 (resp. h) up to and including
+    # the edge, h (resp. 0) beyond it; a normalised coordinate (x - s) / (e - s) is 0/0 exactly on the edge
+    def s_edge():
+        v = rvar("start")
+        return {"start": v, "end": v}
+
+    out.append(("SShape/R/start=end", _special_case("SShape", s_edge, lambda P: [], lambda P, x: (z3.If(x <= P["start"].v, 0, 1), 1, 0), "SShape/R/start=end")))
+    out.append(("ZShape/R/start=end", _special_case("ZShape", s_edge, lambda P: [], lambda P, x: (z3.If(x <= P["start"].v, 1, 0), 0, 1), "ZShape/R/start=end")))
+
+    def pi_edges():
+        a, b = rvar("bottom_left"), rvar("top_right")
+        return {"bottom_left": a, "top_left": a, "top_right": b, "bottom_right": b}
+
+    out.append(("PiShape/R/vertical-edges", _special_case(
+        "PiShape", pi_edges, lambda P: [P["bottom_left"].v <= P["top_right"].v],
+        lambda P, x: (z3.If(x <= P["bottom_left"].v, 0, z3.If(x <= P["top_right"].v, 1, 0)), 0, 0), "PiShape/R/vertical-edges")))
     return out
 
 
